@@ -134,6 +134,13 @@ class Normalise(ast.NodeTransformer):
     # -- statements -----------------------------------------------------------------------
     def visit_Assign(self, n):
         self.generic_visit(n)
+        # `a, b = x, y` -> `a = x` ; `b = y` when no target is read on the right-hand side
+        if len(n.targets) == 1 and isinstance(n.targets[0], ast.Tuple) and isinstance(n.value, ast.Tuple) and len(n.targets[0].elts) == len(n.value.elts) \
+                and all(isinstance(t, ast.Name) for t in n.targets[0].elts) and not any(isinstance(v, ast.Starred) for v in n.value.elts):
+            tg = {t.id for t in n.targets[0].elts}
+            if len(tg) == len(n.targets[0].elts) and not any(isinstance(x, ast.Name) and x.id in tg for v in n.value.elts for x in ast.walk(v)):
+                return [self.visit_Assign(ast.copy_location(ast.Assign(targets=[ast.Name(id=t.id, ctx=ast.Store())], value=v, lineno=n.lineno), n))
+                        for t, v in zip(n.targets[0].elts, n.value.elts)]
         if len(n.targets) == 1 and isinstance(n.targets[0], ast.Name) and isinstance(n.value, ast.BinOp) and isinstance(n.value.left, ast.Name) \
                 and n.value.left.id == n.targets[0].id:
             return ast.copy_location(ast.AugAssign(target=ast.Name(id=n.targets[0].id, ctx=ast.Store()), op=n.value.op, value=n.value.right), n)
